@@ -371,6 +371,36 @@ def _initial_values(ctx: Ctx, helpers):
     if not ok:
         ctx.fail(cons, ninit.loc(), "Node.end_to_end_seq is not SequenceGenerator(<start time>): "
                  f"`{ast.unparse(val) if val is not None else None}`")
+    # ... the start TIME: what seeds the generator is read from the clock and from nothing the
+    # caller passes in (an Origin-State-Id kept over a restart, a configured constant): a node
+    # restarted with the same value draws its end-to-end identifiers from the block of 2^20 values
+    # its previous incarnation used
+    cons = "Node.__init__:end_to_end_seq#clock-only"
+    ctx.inst(cons)
+    if ok and sid is not None:
+        params = {a.arg for a in ninit.node.args.args + ninit.node.args.kwonlyargs} - {"self"}
+        seen: set[str] = set()
+
+        def sources(e, depth=0):
+            out = set()
+            for x in ast.walk(e):
+                if isinstance(x, ast.Name) and x.id in params:
+                    out.add(x.id)
+                elif isinstance(x, ast.Name) and depth < 3 and x.id not in seen:
+                    seen.add(x.id)
+                    for d in A.walk_no_nested(ninit.node):
+                        if isinstance(d, (ast.Assign, ast.AnnAssign)) and getattr(d, "value", None) is not None \
+                                and any(isinstance(t, ast.Name) and t.id == x.id for t in A.store_targets(d)):
+                            out |= sources(d.value, depth + 1)
+            return out
+        src = sources(sid)
+        if src:
+            ctx.fail(cons, ninit.loc(sid), f"the value that seeds Node.end_to_end_seq depends on the constructor "
+                     f"argument(s) {sorted(src)} (`{ast.unparse(sid)[:80]}`), not on the clock alone: two "
+                     f"incarnations of the node configured with the same value draw their end-to-end "
+                     f"identifiers from the same 2^20 block - identifiers of requests still outstanding at "
+                     f"the peers from before the restart are handed out again",
+                     expected="SequenceGenerator(<int(time.time())>)", observed=ast.unparse(sid)[:120])
     pc = model.cls("node.peer", "PeerConnection")
     pinit = pc.methods["__init__"]
     cons = "PeerConnection.__init__:hop_by_hop_seq"
